@@ -14,7 +14,7 @@ FORMS = {"core": "literal/variable/setq/progn/prog1/if/when/unless/cond (incl. t
 
 def judge(events, stim_of, findings, hit):
     """Judge the traces with the machine. A rejected trace of a program that has the feature of an open finding with a named
-    deviation of the machine (C01-F4 "dynscope", C01-F5 "psetq-value") is judged a second time by the machine run with the deviations of those findings: if the whole
+    deviation of the machine (C01-F4 / C07-F11 "dynscope", C01-F5 "psetq-value", C07-F10 "exit-as-value") is judged a second time by the machine run with the deviations of those findings: if the whole
     trace is then accepted it is an observation of the finding, otherwise it stays a violation (with the lexical verdict)."""
     res = pipeline.accept(SPEC, "CoreTrace", "CoreTrace.cfg", events, timeout=3000)
     devs = [f for f in findings if f.get("deviation")]
@@ -51,7 +51,7 @@ def run(tier, seed, prop=PROP, profile="core"):
                 stimuli.append(s)
     events = pipeline.drive(vdrive, "c01", stimuli, chunk=150, timeout=900)
     by_id = {s["id"]: s for s in stimuli}
-    findings = [f for f in common.load_findings("C01") if f.get("status") == "open"]
+    findings = [f for p in ("C01", "C07") for f in common.load_findings(p) if f.get("status") == "open"]
     hit = {}
     res = judge(events, lambda t: by_id[t], findings, hit)
     for f in findings:
